@@ -150,10 +150,11 @@ func (k Keeper) AdjustPool(
 
 	// expiredHeight = [(srcEndHeight-beginPoint)*srcRewardPerBlock +appendReward]/RewardPerBlock + beginPoint
 	rewardsPerBlock := types.RewardRules(pool.Rules).RewardsPerBlock()
-	availableHeight := availableReward[0].Amount.Quo(rewardsPerBlock.AmountOf(availableReward[0].Denom)).Int64()
-	for _, c := range availableReward[1:] {
-		rpb := rewardsPerBlock.AmountOf(c.Denom)
-		inteval := c.Amount.Quo(rpb).Int64()
+	// every reward denomination limits the height; one with nothing available limits it to zero
+	// (availableReward holds no zero coins, so iterate over the rules' denominations instead)
+	availableHeight := availableReward.AmountOf(rewardsPerBlock[0].Denom).Quo(rewardsPerBlock[0].Amount).Int64()
+	for _, c := range rewardsPerBlock[1:] {
+		inteval := availableReward.AmountOf(c.Denom).Quo(c.Amount).Int64()
 		if availableHeight > inteval {
 			availableHeight = inteval
 		}
